@@ -16,6 +16,12 @@ import time
 import traceback
 from collections import Counter
 
+# The floors in the property modules are TARGET rates (what the generator is built to reach on average). Hypothesis' sampling is
+# over-dispersed between seeds (a class averaging 5 % of the cases was seen between 1 % and 8 % over six seeds), so the harness error
+# (exit 2, "the generator no longer reaches this class") is raised at a fraction of the target; tools/soak.sh margins lists the ratios.
+NT_SLACK = 0.6
+CLASS_SLACK = 0.4
+
 HERE = os.path.dirname(os.path.dirname(os.path.abspath(__file__)))
 NPROC = 16
 
@@ -253,11 +259,18 @@ def main(argv=None):
         sub = subs_by_name[name]
         if a['fail'] or not a['evaluations']:
             continue
-        if len(a['nt']) < sub.floor * a['evaluations'] and not a['exhaustive']:
+        if len(a['nt']) < NT_SLACK * sub.floor * a['evaluations'] and not a['exhaustive']:
             errors.append('sub-check %s is vacuous: %i distinct non-trivial of %i evaluations (floor %.0f%%)'
                           % (name, len(a['nt']), a['evaluations'], 100 * sub.floor))
+        if os.environ.get('PV_FLOOR_MARGINS'):
+            # how far every floor is from being hit, in standard deviations of a binomial count (tools/soak.sh margins)
+            rows = [('<non-trivial>', len(a['nt']), sub.floor)] + [(c, a['classes'].get(c, 0), fl) for c, fl in sub.class_floors.items()]
+            for c, obs, fl in rows:
+                if not a['exhaustive'] and fl > 0:
+                    need = (NT_SLACK if c == '<non-trivial>' else CLASS_SLACK) * fl * a['evaluations']
+                    print('MARGIN %s %s %s obs=%i need=%.1f ratio=%.2f' % (prop, name, c, obs, need, obs / max(need, 1e-9)))
         for c, fl in sub.class_floors.items():
-            if a['classes'].get(c, 0) < fl * a['evaluations']:
+            if a['classes'].get(c, 0) < CLASS_SLACK * fl * a['evaluations']:
                 errors.append('sub-check %s: class %r reached only %i of %i evaluations (floor %.1f%%)'
                               % (name, c, a['classes'].get(c, 0), a['evaluations'], 100 * fl))
 
